@@ -25,6 +25,10 @@ fn session_sub_key(key: &[u8], salt: &[u8]) -> [u8; blake3::OUT_LEN] {
 }
 
 pub fn now() -> Result<u64, SystemTimeError> {
+    #[cfg(octo_squirrel_verif)]
+    if let Some(t) = crate::verif_clock::get() {
+        return Ok(t as u64);
+    }
     Ok(SystemTime::now().duration_since(UNIX_EPOCH)?.as_secs())
 }
 
